@@ -94,6 +94,7 @@ def run(P, rep, tier):
         order_bad = {}
         order_ok = 0
         dumps = 0
+        raw_json = False
         for path, mark, fp, content in writer_call(P, meth, prefix):
             evs = path.events[mark:]
             writes = [e for e in evs if e.kind == 'stream-write' and e.data['stream'] is fp]
@@ -118,6 +119,11 @@ def run(P, rep, tier):
                                          'length is not the length of the content as written (e.g. taken before indentation)'
                                          % (getattr(lv, 'name', lv), getattr(X, 'name', X)))
             dumps += sum(1 for e in evs if e.kind == 'json.dumps')
+            for e in evs:
+                if e.kind == 'json.dumps':
+                    ea = e.data['kwargs'].get('ensure_ascii')
+                    if ea is not None and concrete(ea) is not True:
+                        raw_json = True
             # order: encode(content) < newline append < indentation
             if kind != 'meta' or True:
                 enc = [i for i, e in enumerate(evs) if e.kind == 'encode' and (e.data['recv'] is content or
@@ -169,7 +175,11 @@ def run(P, rep, tier):
         else:
             rep.ok(r4w, inst, {'paths_with_indentation': order_ok})
         if kind == 'meta':
-            if dumps:
+            if dumps and raw_json:
+                rep.violation(r5, 'writer-json-raw', m.loc(), 'write_meta dumps metadata with ensure_ascii disabled: characters the section '
+                              'encoding cannot represent make the write fail, where the escaped form round-trips in every encoding',
+                              path=[inst])
+            elif dumps:
                 rep.ok(r5, 'writer serialises metadata with json.dumps')
             else:
                 rep.violation(r5, 'writer-json', m.loc(), 'write_meta no longer serialises with json.dumps')
